@@ -40,6 +40,11 @@ func TestMain(m *testing.M) {
 			f.Write(append(data, '\n'))
 			f.Close()
 		}
+		if ms := os.Getenv("VERIF_HOOK_SLEEP_MS"); ms != "" {
+			var n int
+			fmt.Sscanf(ms, "%d", &n)
+			time.Sleep(time.Duration(n) * time.Millisecond)
+		}
 		if os.Getenv("VERIF_HOOK_FAIL") != "" {
 			os.Stdout.WriteString("hook failed on purpose\n")
 			os.Exit(7)
@@ -817,6 +822,33 @@ func TestVerifConc(t *testing.T) {
 				out.Emit(verifkit.M{"ev": "unlocked", "sid": sid, "during": "open", "held": f.Held, "overlap": f.Overlap})
 				break
 			}
+		}
+		if sid%3 == 0 {
+			/* a slow media hook that is abandoned with Esc (or another key) before it exits; afterwards
+			   keys must still be handled: every one of them has to return */
+			os.Setenv("VERIF_HOOK_SLEEP_MS", "150")
+			lc := &verifConc{verifSession: verifNewSession(w, out, sid, false)}
+			lc.s = NewState(80, 24, lc.callback)
+			if err := lc.s.Subcommand("open", w.h.URL("/users/alice")); err == nil && lc.settle(8*time.Second) {
+				issued, returned := 0, int32(0)
+				press := func(b byte) {
+					issued++
+					done := make(chan struct{})
+					go func() { lc.s.Update(b); atomic.AddInt32(&returned, 1); close(done) }()
+					select {
+					case <-done:
+					case <-time.After(4 * time.Second):
+					}
+				}
+				press('p')
+				press([]byte{27, 'h', ':'}[rng.Intn(3)])
+				time.Sleep(400 * time.Millisecond)
+				press('z')
+				press(27)
+				out.Emit(verifkit.M{"ev": "liveness", "sid": sid, "scenario": "hook abandoned while running", "issued": issued, "returned": atomic.LoadInt32(&returned)})
+			}
+			os.Unsetenv("VERIF_HOOK_SLEEP_MS")
+			lc.hookCalls()
 		}
 		for b := 0; b < in.Bursts; b++ {
 			k := 1 + rng.Intn(5)
